@@ -38,15 +38,16 @@ BLOWFISH_KS = ("// cheap key-dependent stand-in for the 521-encryption key sched
                "}\n",
                "(crate::Blowfish::expand_key, stub_bf_expand)")
 CAST5_KS = ("pub fn stub_c5_ks(_c: &mut crate::Cast5, _key: &[u8]) {}\n", "(crate::Cast5::key_schedule, stub_c5_ks)")
-TWOFISH_KS = ("// cheap key-dependent stand-in for the Twofish key schedule (h function over the q-tables): the first 16 bytes of the\n"
-              "// state are XORed with the key bytes, cycled; no field is named\n"
+TWOFISH_KS = ("// cheap stand-in for the Twofish key schedule (h function over the q-tables), injective in the key bytes AND the key\n"
+              "// length: state byte i is XORed with key byte i (i < len <= 32), state byte 40 with the length; no field is named\n"
               "pub fn stub_tf_ks(t: &mut crate::Twofish, key: &[u8]) {\n"
               "    let p = t as *mut crate::Twofish as *mut u8;\n"
               "    let mut i = 0;\n"
-              "    while i < 16 && !key.is_empty() {\n"
-              "        unsafe { *p.add(i) ^= key[i % key.len()] };\n"
+              "    while i < key.len() && i < 40 {\n"
+              "        unsafe { *p.add(i) ^= key[i] };\n"
               "        i += 1;\n"
               "    }\n"
+              "    unsafe { *p.add(40) ^= key.len() as u8 };\n"
               "}\n",
               "(crate::Twofish::key_schedule, stub_tf_ks)")
 
@@ -99,28 +100,28 @@ for w, r, b in [("u32", 12, 16), ("u16", 16, 8), ("u8", 12, 4), ("u64", 24, 24),
 # is decided over its whole input space by the family's leaf lemma.  crate -> (declarations, stub pairs)
 ROUTE = {
     "camellia": ("fn rt_conc_f(x: u64, k: u64) -> u64 { refmodels::camellia::f(x, k) }\n"
-                 "uf2!(rt_f, u64, u64, u64, [B0 B1 B2 B3 B4], rt_conc_f);\n"
+                 "cuf2!(rt_f, vuf_xcut_rt_f, u64, u64, u64, rt_conc_f);\n"
                  "pub fn rt_stub_f(x: u64, k: u64) -> u64 { rt_f::call(x, k) }\n",
                  "(crate::utils::f, rt_stub_f)"),
-    "sm4": ("uf1!(rt_t, u32, u32, [B0 B1 B2 B3 B4], refmodels::sm4::t);\n"
+    "sm4": ("cuf1!(rt_t, vuf_xcut_rt_t, u32, u32, refmodels::sm4::t);\n"
             "pub fn rt_stub_t(v: u32) -> u32 { rt_t::call(v) }\n",
             "(crate::t, rt_stub_t)"),
-    "idea": ("uf2!(rt_mul, u16, u16, u16, [B0 B1 B2 B3 B4 B5], refmodels::idea::mul);\n"
+    "idea": ("cuf2!(rt_mul, vuf_xcut_rt_mul, u16, u16, u16, refmodels::idea::mul);\n"
              "pub fn rt_stub_mul(_c: &crate::Idea, a: u16, b: u16) -> u16 { rt_mul::call(a, b) }\n",
              "(crate::Idea::mul, rt_stub_mul)"),
-    "aria": ("uf1!(rt_fo, u128, u128, [B0 B1 B2], refmodels::aria::fo);\n"
-             "uf1!(rt_fe, u128, u128, [B0 B1 B2], refmodels::aria::fe);\n"
-             "uf1!(rt_s2, u128, u128, [B0], refmodels::aria::sl2);\n"
-             "uf1!(rt_a, u128, u128, [B0], refmodels::aria::a);\n"
+    "aria": ("cuf1!(rt_fo, vuf_xcut_rt_fo, u128, u128, refmodels::aria::fo);\n"
+             "cuf1!(rt_fe, vuf_xcut_rt_fe, u128, u128, refmodels::aria::fe);\n"
+             "cuf1!(rt_s2, vuf_xcut_rt_s2, u128, u128, refmodels::aria::sl2);\n"
+             "cuf1!(rt_a, vuf_xcut_rt_a, u128, u128, refmodels::aria::a);\n"
              "pub fn rt_stub_fo(x: u128) -> u128 { rt_fo::call(x) }\n"
              "pub fn rt_stub_fe(x: u128) -> u128 { rt_fe::call(x) }\n"
              "pub fn rt_stub_s2(x: u128) -> u128 { rt_s2::call(x) }\n"
              "pub fn rt_stub_a(x: u128) -> u128 { rt_a::call(x) }\n",
              "(crate::utils::fo, rt_stub_fo), (crate::utils::fe, rt_stub_fe), (crate::utils::sl2, rt_stub_s2), (crate::utils::a, rt_stub_a)"),
     "belt-block": ("use core::num::Wrapping;\n"
-                   "uf1!(rt_g5, u32, u32, [B0 B1 B2 B3], refmodels::belt::g5);\n"
-                   "uf1!(rt_g13, u32, u32, [B0 B1 B2 B3], refmodels::belt::g13);\n"
-                   "uf1!(rt_g21, u32, u32, [B0 B1 B2 B3], refmodels::belt::g21);\n"
+                   "cuf1!(rt_g5, vuf_xcut_rt_g5, u32, u32, refmodels::belt::g5);\n"
+                   "cuf1!(rt_g13, vuf_xcut_rt_g13, u32, u32, refmodels::belt::g13);\n"
+                   "cuf1!(rt_g21, vuf_xcut_rt_g21, u32, u32, refmodels::belt::g21);\n"
                    "pub fn rt_stub_g5(u: Wrapping<u32>) -> Wrapping<u32> { Wrapping(rt_g5::call(u.0)) }\n"
                    "pub fn rt_stub_g13(u: Wrapping<u32>) -> Wrapping<u32> { Wrapping(rt_g13::call(u.0)) }\n"
                    "pub fn rt_stub_g21(u: Wrapping<u32>) -> Wrapping<u32> { Wrapping(rt_g21::call(u.0)) }\n",
@@ -297,8 +298,8 @@ def emit(crate, rows):
                  % (n, "stub=1 " if stub_pair else "", ty, "; key schedule stubbed out (verdict only)" if stub_pair else ""))
         o.append("g_keylen!(%s_keylen, %s, 300, %s%s);\n" % (n, ty, t["accepted"], (", stubs: [%s]" % stub_pair) if stub_pair else ""))
         if t["eq_slice"]:
-            o.append('//@ harness name=%s_new_eq_slice prop=C11 tier=%s bits=%d desc="%s::new(&key) and new_from_slice(&key[..]) yield the same state for every %d-byte key"\n' % (n, "thorough" if t["heavy"] else "quick", 8 * kl, ty, kl))
-            o.append("g_new_eq_slice!(%s_new_eq_slice, %s, %d, %s);\n" % (n, ty, kl, t["exempt"]))
+            o.append('//@ harness name=%s_new_eq_slice prop=C11 tier=%s bits=%d %sdesc="%s::new(&key) and new_from_slice(&key[..]) yield the same state for every %d-byte key%s"\n' % (n, "quick" if (stub_pair or not t["heavy"]) else "thorough", 8 * kl, "stub=1 " if stub_pair else "", ty, kl, "; key schedule replaced by a cheap stand-in that is injective in key bytes and length (the subject is what the constructors hand to it)" if stub_pair else ""))
+            o.append("g_new_eq_slice!(%s_new_eq_slice, %s, %d, %s%s);\n" % (n, ty, kl, t["exempt"], (", stubs: [%s]" % stub_pair) if stub_pair else ""))
         o.append('//@ harness name=%s_zeroize prop=C16 tier=quick bits=64 variants=%s+zeroize desc="drop_in_place of an arbitrary-state %s (zeroize feature) leaves every non-padding byte of its storage zero"\n' % (n, crate, ty))
         o.append("g_zeroize!(%s_zeroize, %s, %s, %s);\n" % (n, ty, t["valid"], t["exempt"]))
         tier = "thorough" if t["heavy"] else "quick"
@@ -309,7 +310,14 @@ def emit(crate, rows):
         o.append("g_ctor_history!(%s_ctor_history, %s, %d, %s%s);\n" % (n, ty, kl, t["exempt"], ks))
         if set(t["dirs"]) == {"enc", "dec"}:
             o.append('//@ harness name=%s_mixed prop=C15,C20 tier=%s bits=%d %sdesc="%s: on one arbitrary-state instance the history enc(x); dec(x); dec(y); enc(y) returns for dec(x) and enc(y) what a pristine instance with the same state returns (no memoisation across directions), instance bytes unchanged%s"\n' % (n, tier, 16 * bs + 64, rmeta, ty, rnote))
-            o.append("g_mixed!(%s_mixed, %s, %d, %s%s);\n" % (n, ty, bs, t["valid"], rstubs))
+            if route_pairs:
+                # with an uninterpreted leaf the history is split in its two halves (quadratic consistency constraints)
+                o.pop()
+                for first, second in (("enc", "dec"), ("dec", "enc")):
+                    o.append('//@ harness name=%s_mixed_%s%s prop=C15,C20 tier=%s bits=%d %sdesc="%s: on one arbitrary-state instance, after %s(x) the call %s(x) returns what a pristine instance with the same state returns (no memoisation across directions), instance bytes unchanged%s"\n' % (n, first, second, tier, 8 * bs + 64, rmeta, ty, first, second, rnote))
+                    o.append("g_mixed_half!(%s_mixed_%s%s, %s, %d, %s, %s, %s%s);\n" % (n, first, second, ty, bs, t["valid"], first, second, rstubs))
+            else:
+                o.append("g_mixed!(%s_mixed, %s, %d, %s%s);\n" % (n, ty, bs, t["valid"], rstubs))
         for d in t["dirs"]:
             if t["frame"]:
                 o.append('//@ harness name=%s_frame_%s prop=C15,C20 tier=%s bits=%d %sdesc="%s: %s_block on an arbitrary valid state returns for every block (no panic / overflow / bounds failure); the history op(x); op(y); op(x) on one instance gives equal first and third results and leaves every byte of the instance unchanged%s"\n' % (n, d, tier, 16 * bs + 64, rmeta, ty, "encrypt" if d == "enc" else "decrypt", rnote))
@@ -319,7 +327,16 @@ def emit(crate, rows):
                     o.append("g_total!(%s_total_%s, %s, %d, %s, %s);\n" % (n, d, ty, bs, t["valid"], d))
             if t["blocks"]:
                 o.append('//@ harness name=%s_blocks_%s prop=C04,C20 tier=%s bits=%d %sdesc="%s (%s): multi-block in place, multi-block b2b and single b2b calls for every n in 0..=%d equal per-block in-place calls; separate input unchanged; output blocks >= n untouched; arbitrary valid state%s"\n' % (n, d, tier, 8 * bs * t["nb"] + 72, rmeta, ty, d, t["nb"], " (non-linear leaf uninterpreted)" if route_pairs else ""))
-                o.append("g_blocks1!(%s_blocks_%s, %s, %d, %d, %s, %s%s);\n" % (n, d, ty, bs, t["nb"], t["valid"], d, rstubs))
+                if route_pairs:
+                    o.pop()
+                    parts = {"b2b": "multi-block b2b with n = %d equals the per-block in-place calls, separate input unchanged; n = 0 and mismatched lengths write nothing" % t["nb"],
+                             "inplace": "multi-block in place with n = %d (and n = 0) equals the per-block in-place calls" % t["nb"],
+                             "short": "n = %d: multi-block b2b and in place equal the per-block calls and leave blocks >= n untouched; single-block b2b equals the in-place call, input unchanged" % (t["nb"] - 1)}
+                    for part, what in parts.items():
+                        o.append('//@ harness name=%s_blocks_%s_%s prop=C04,C20 tier=%s bits=%d %sdesc="%s (%s): %s; arbitrary valid state (non-linear leaf uninterpreted)"\n' % (n, d, part, tier, 8 * bs * t["nb"] + 72, rmeta, ty, d, what))
+                        o.append("g_blocks_part!(%s_blocks_%s_%s, %s, %d, %d, %s, %s, %s%s);\n" % (n, d, part, ty, bs, t["nb"], t["valid"], d, part, rstubs))
+                else:
+                    o.append("g_blocks1!(%s_blocks_%s, %s, %d, %d, %s, %s%s);\n" % (n, d, ty, bs, t["nb"], t["valid"], d, rstubs))
     o.append(EXTRA.get(crate, ""))
     p = os.path.join(VERIF, "harness", crate, "xcut.rs")
     os.makedirs(os.path.dirname(p), exist_ok=True)
